@@ -23,6 +23,8 @@ type modelRun struct {
 	FailedBy map[string]int
 	// C02 bookkeeping per height: total value of the implementation state
 	Totals []*big.Int
+	// ModelTotals: total value of the reference model (native model + reference EVM world when present) per height
+	ModelTotals []*big.Int
 	Minted []*big.Int
 	Burnt  []*big.Int
 	Folded map[string]int64 // the validator set obtained by folding all EndBlock updates onto the genesis set
@@ -155,6 +157,7 @@ func runWithModel(h sim.History, mo *modelOpts) *modelRun {
 			for _, a := range addrs {
 				m.LastVals = append(m.LastVals, refmodel.Val{Addr: a, Power: st.LastVals[a]})
 			}
+			mr.ModelTotals = append(mr.ModelTotals, m.TotalValue()) // before Compare re-synchronises anything
 			m.Compare(st)
 			mr.Totals = append(mr.Totals, st.TotalValue())
 			mr.Minted = append(mr.Minted, minted)
